@@ -15,7 +15,8 @@ import (
 type c03Scenario struct {
 	Client     ClientOpts `json:"client"`
 	Pre        bool       `json:"previous_resumable_session"`
-	Via        string     `json:"via"` // Connect | Resume
+	PreFailed  string     `json:"previous_failed_attempt,omitempty"` // a failed attempt on the same client before the measured one
+	Via        string     `json:"via"`                               // Connect | Resume
 	Server     NegScript  `json:"server"`
 	Seg        int        `json:"segmentation"`
 	LatencyNs  int64      `json:"latency_ns"`
@@ -49,8 +50,11 @@ func runC03(e *Engine, g G, o RunOpt) RunInfo {
 		sc.Server.Bind = BindError
 	}
 	sc.Pre = sc.Client.Insecure && sc.Client.SM && g.Pct("pre", 40)
+	if !sc.Pre && sc.Client.Insecure && g.Pct("pre-failed", 25) {
+		sc.PreFailed = []string{"bind-error", "auth-close", "enable-failed", "header3-close"}[g.N("pre-failed-kind", 4)]
+	}
 	sc.Via = "Connect"
-	if sc.Pre && g.Bool("via") {
+	if (sc.Pre || sc.PreFailed != "") && g.Bool("via") {
 		sc.Via = "Resume"
 	}
 	sc.Seg, sc.LatencyNs = netModes(g, e)
@@ -71,7 +75,21 @@ func runC03(e *Engine, g G, o RunOpt) RunInfo {
 		srv.Certs = sharedCerts()
 		pre := DefaultNeg()
 		pre.SM = true
-		if sc.Pre {
+		if sc.PreFailed != "" {
+			bad := DefaultNeg()
+			bad.SM = true
+			switch sc.PreFailed {
+			case "bind-error":
+				bad.Bind = BindError
+			case "auth-close":
+				bad.AuthReply = AuthClose
+			case "enable-failed":
+				bad.Enable = EnableFailed
+			default:
+				bad.Header3 = HdrClose
+			}
+			srv.Scripts = []NegScript{bad, sc.Server}
+		} else if sc.Pre {
 			srv.Scripts = []NegScript{pre, sc.Server}
 		} else {
 			srv.Scripts = []NegScript{sc.Server}
@@ -80,6 +98,17 @@ func runC03(e *Engine, g G, o RunOpt) RunInfo {
 		w.CatchAll()
 		if err := w.Create(); err != nil {
 			return
+		}
+		if sc.PreFailed != "" {
+			// an attempt that fails somewhere after the first features: whatever it leaves behind
+			// must not influence the next one
+			err, _ := e.Call("Connect(previous attempt, must fail)", w.Client.Connect)
+			if err == nil || len(srv.Conns) != 1 {
+				e.Probe("precondition_failed")
+				return
+			}
+			e.Sleep(time.Duration(sc.Client.ConnectTimeout+3) * time.Second)
+			e.Probe("c03.after_failed_attempt")
 		}
 		if sc.Pre {
 			err, _ := e.Call("Connect(previous session)", w.Client.Connect)
@@ -103,7 +132,7 @@ func runC03(e *Engine, g G, o RunOpt) RunInfo {
 		retSeq = len(e.Log)
 		tRet = e.Now()
 		stateAfter = xmpp.VerifClientState(w.Client)
-		if n := len(srv.Conns); n > 0 && (!sc.Pre || n > 1) {
+		if n := len(srv.Conns); n > 0 && ((!sc.Pre && sc.PreFailed == "") || n > 1) {
 			conn = srv.Conns[n-1]
 			reached = len(conn.Recv) > 0
 		}
